@@ -280,6 +280,35 @@ func (p *Prog) Reachable(roots []*ssa.Function, skipEdge func(*callgraph.Edge) b
 		f := q[0]
 		q = q[1:]
 		order = append(order, f)
+		// function values created here (closures handed to library code such as sort.Slice, method values)
+		// may be called from code the walk does not enter: treat them as reachable from f.
+		for _, b := range f.Blocks {
+			for _, ins := range b.Instrs {
+				for _, op := range ins.Operands(nil) {
+					if op == nil || *op == nil {
+						continue
+					}
+					var g *ssa.Function
+					switch v := (*op).(type) {
+					case *ssa.Function:
+						g = v
+					case *ssa.MakeClosure:
+						g, _ = v.Fn.(*ssa.Function)
+					}
+					// only anonymous functions: named functions and method values are resolved by VTA
+					if g != nil && g.Parent() != nil {
+						e := &callgraph.Edge{Caller: cg.CreateNode(f), Callee: cg.CreateNode(g)}
+						if skipEdge != nil && skipEdge(e) {
+							continue
+						}
+						if _, ok := pred[g]; !ok {
+							pred[g] = e
+							q = append(q, g)
+						}
+					}
+				}
+			}
+		}
 		n := cg.Nodes[f]
 		if n == nil {
 			continue
